@@ -38,6 +38,8 @@ type Pilot struct {
 	mtps   []mtpRef
 	// set by operations after which a restarted node must be compared with running ones: the next block becomes a restart point
 	restartNext bool
+	// every epoch end the pilot's BeginBlock performed: "h=<height> id=<identifier> | oldStartNs durationNs newStartNs oldCurrent newCurrent"
+	EpochEnds []string
 }
 
 type distRef struct {
@@ -70,7 +72,17 @@ func (p *Pilot) Begin() {
 	p.cur = &p.Spec.Blocks[len(p.Spec.Blocks)-1]
 	p.Obs.Blocks = append(p.Obs.Blocks, BlockObs{})
 	p.curObs = &p.Obs.Blocks[len(p.Obs.Blocks)-1]
+	before := p.C.App.EpochsKeeper.AllEpochInfos(p.C.Ctx())
 	r := p.C.Begin(h, t, prop)
+	// what an epoch end wrote, taken from the state (the block times of the histories lie years before the wall clock)
+	for _, a := range p.C.App.EpochsKeeper.AllEpochInfos(p.C.Ctx()) {
+		for _, b := range before {
+			if b.Identifier == a.Identifier && b.EpochCountingStarted && a.CurrentEpoch != b.CurrentEpoch {
+				p.EpochEnds = append(p.EpochEnds, fmt.Sprintf("h=%d id=%s | %d %d %d %d %d", h, sanitize(a.Identifier), b.CurrentEpochStartTime.UnixNano(), int64(b.Duration),
+					a.CurrentEpochStartTime.UnixNano(), b.CurrentEpoch, a.CurrentEpoch))
+			}
+		}
+	}
 	for _, e := range r.Events {
 		p.Events["begin/"+e.Type]++
 	}
